@@ -16,8 +16,8 @@ def keysort(kind):
 
 def fresh_value(interp, shape, name):
     ctx = interp.ctx
-    if isinstance(shape, ObjModel):
-        shape = ("obj", shape)
+    if isinstance(shape, (ObjModel, dict)):
+        shape = parse_shape(shape, interp.reg.models)
     if isinstance(shape, str) and shape not in ("int", "bool", "float", "str", "bytes", "none"):
         shape = parse_shape(shape, interp.reg.models)
     if shape == "int":
@@ -56,6 +56,11 @@ def fresh_value(interp, shape, name):
         sorts = leaf_sorts(shape[2])
         d = VDict(None, keysort=ks, shape=shape[2], present=z3.Array(name + ".in", ks, BoolS),
                   arrs=[z3.Array(f"{name}.v{i}", ks, s) for i, s in enumerate(sorts)], keykind=shape[1])
+        return d
+    if k == "dictrec":
+        d = VDict({})
+        for key, sh in shape[1].items():
+            d.items[("str", key)] = fresh_value(interp, sh, f"{name}[{key}]")
         return d
     if k == "obj":
         model = shape[1]
